@@ -8,6 +8,8 @@ from .mir import Site, Unverifiable, callee_is, callee_path, const_int, const_st
 
 CFGS = {"quick": ["default", "all"], "thorough": ["default", "all", "nodefault", "libtest"]}
 
+WITNESS = ["WriterOrder"]  # doctests of engine/witness run in the thorough tier
+
 EXPLANATION = """
 Path tables and pairing rules over the MIR of the writer combinators: (R1) FailOnSkipped: the event mapping has
 exactly four transforming paths — (rule-level | feature-level) x (Background | Step) with Step::Skipped — each
@@ -295,4 +297,46 @@ def r3(F, R):
     R.floor(7)
 
 
-RULES = [("R1", r1, None), ("R2", r2, None), ("R3", r3, None)]
+def r4(F, R):
+    """Type-level ordering from the trait-impl table: a transforming writer (FailOnSkipped) can never sit inside Summarize or
+    Repeat, because those require `NonTransforming`/`Summarizable` of their inner writer and FailOnSkipped has no such impl."""
+    impls = [i for i in F.impls if i["crate"] == "cucumber"]
+    nt = [i for i in impls if i["trait"] == "writer::NonTransforming"]
+    bad = [i["self"] for i in nt if i["self_adt"] == FOS]
+    R.check(not bad, "fail-on-skipped-is-transforming", None, "no `impl NonTransforming for FailOnSkipped`", f"FailOnSkipped is declared NonTransforming: {bad}")
+    # wrappers are NonTransforming only if every inner writer is
+    for i in nt:
+        m = re.match(r"^[\w:]+<(.*)>$", i["self"])
+        params = [x.strip() for x in m.group(1).split(",")] if m else []
+        a = F.adt(i["self_adt"]) if i["self_adt"] else None
+        if a is None:
+            continue
+        # type params that are the type of a field and have a Writer-ish role: those constrained anywhere in the crate by Writer bounds
+        writer_params = set()
+        for j in impls:
+            if j["self_adt"] == i["self_adt"] and j["trait"] == "writer::Writer":
+                mj = re.match(r"^[\w:]+<(.*)>$", j["self"])
+                pj = [x.strip() for x in mj.group(1).split(",")] if mj else []
+                for pos, pn in enumerate(pj):
+                    if any(re.match(rf"^{re.escape(pn)}: writer::Writer<", pr) for pr in j["preds"]):
+                        writer_params.add(pos)
+        need = [params[pos] for pos in sorted(writer_params) if pos < len(params)]
+        missing = [pn for pn in need if f"{pn}: writer::NonTransforming" not in i["preds"]]
+        R.check(not missing, f"non-transforming-is-structural/{i['self_adt'].replace('writer::', '')}", None, f"requires NonTransforming of {need}",
+                f"`impl NonTransforming for {i['self']}` does not require NonTransforming of its inner writer(s) {missing}: a transforming writer could hide inside it")
+    sw = [i for i in impls if i["trait"] == "writer::Writer" and i["self_adt"] == "writer::summarize::Summarize"]
+    R.check(len(sw) == 1 and any(re.search(r": writer::summarize::Summarizable$", pr) for pr in sw[0]["preds"]), "summarize-requires-summarizable", None,
+            "impl Writer for Summarize<Wr> where Wr: Summarizable", "Summarize no longer requires its inner writer to be Summarizable")
+    rw = [i for i in impls if i["trait"] == "writer::Writer" and i["self_adt"] == REP]
+    R.check(len(rw) == 1 and any(re.search(r": writer::NonTransforming$", pr) for pr in rw[0]["preds"]), "repeat-requires-non-transforming", None,
+            "impl Writer for Repeat<_, Wr, _> where Wr: NonTransforming", "Repeat no longer requires its inner writer to be NonTransforming")
+    for i in [i for i in impls if i["trait"] == "writer::summarize::Summarizable"]:
+        if i["self_adt"] == "":
+            R.check(any(re.search(r": writer::NonTransforming$", pr) for pr in i["preds"]), "summarizable-blanket-needs-non-transforming", None,
+                    "impl<T: NonTransforming> Summarizable for T", "the blanket Summarizable impl does not require NonTransforming")
+        else:
+            R.check(i["self_adt"] != FOS, f"summarizable/{i['self_adt'].replace('writer::', '')}", None, "", "FailOnSkipped is declared Summarizable")
+    R.floor(10)
+
+
+RULES = [("R4", r4, None), ("R1", r1, None), ("R2", r2, None), ("R3", r3, None)]
